@@ -810,11 +810,13 @@ class Scheduler:
             self.cv.notify_all()
 
 
-def run_writers(entry: str, args_list: list, root: str, target: str, src_root: str, schedule: list):
+def run_writers(entry: str, args_list: list, root: str, target: str, src_root: str, schedule: list, call=None):
     """Runs len(args_list) writers in threads under one interposer, gated by `schedule`.
     Returns {"results": [...], "records": [...global order...], "granted": [...]}.  To be called in a forked child
-    or a pool worker (patches module attributes while it runs)."""
+    or a pool worker (patches module attributes while it runs).  `call(entry, args)` replaces `call_entry` (an entry point
+    whose result is read from process-global state such as sys.stdout needs a caller that is safe in threads)."""
     preload()
+    call = call or call_entry
     n = len(args_list)
     sched = Scheduler(schedule, range(n))
     ip = Interposer(root, target, src_root, {}, gate=sched.gate).install()
@@ -825,7 +827,7 @@ def run_writers(entry: str, args_list: list, root: str, target: str, src_root: s
         ip.tl.writer = i
         try:
             # the first gate: a writer does not start before the schedule lets it take its first step
-            results[i] = call_entry(entry, args_list[i])
+            results[i] = call(entry, args_list[i])
         except BaseException as e:  # scheduler timeout or harness bug
             errors.append(f"writer {i}: {type(e).__name__}: {e}")
         finally:
